@@ -642,10 +642,11 @@ def config_candidates(H, h):
     if isinstance(chk, str) and chk and h.endswith(chk):
         cands.append(h[: -len(chk)])
     else:
-        for sep in "$,:|}":
+        # ('.' separates fields in the grub format only; elsewhere it is a base64 symbol)
+        for sep in "$,:|}" + ("." if h.startswith("grub.") else ""):
             if sep in h:
                 cands.append(h[: h.rindex(sep) + 1])
-    cands += [c[:-1] for c in list(cands) if c and c[-1] in "$,:|"]
+    cands += [c[:-1] for c in list(cands) if c and c[-1] in "$,:|" + ("." if h.startswith("grub.") else "")]
     return [c for c in dict.fromkeys(cands) if c and c != h]
 
 
